@@ -100,7 +100,7 @@ def r_offset_independent(chk, P, tier):
 
 
 def r_iterators(chk, P, tier):
-    chk.rule("STEP.iterators", "day iterator steps by succ_opt / pred_opt, week iterator by Days(7) forward and backward", floor=4)
+    chk.rule("STEP.iterators", "day iterator steps by succ_opt / pred_opt, week iterator by Days(7) forward and backward; each yields the value held before the step", floor=8)
     pre = "<naive::date::NaiveDate"
     for it, nxt, back in (("NaiveDateDaysIterator", {"succ_opt"}, {"pred_opt"}), ("NaiveDateWeeksIterator", {"checked_add_days"}, {"checked_sub_days"})):
         for m, want in (("std::iter::Iterator>::next", nxt), ("std::iter::DoubleEndedIterator>::next_back", back)):
@@ -111,6 +111,12 @@ def r_iterators(chk, P, tier):
                 days = [const_of(c[2][0]) for p in Sym(P, fn).paths() for c in p.calls if isinstance(c[1], str) and c[1].endswith("Days::new")]
                 ok = bool(days) and all(d == 7 for d in days)
             chk.expect(ok, it + "::" + m.split("::")[-1], "%s uses %s (expected %s; week step must be Days::new(7))" % (fn, sorted(cs), sorted(want)), loc=P.loc(fn))
+            # the item yielded is the value held BEFORE the step (the iterator starts at its own value in both directions): the Some payload is the stored field, not a stepped value
+            pays = [result_variant(p_.ret)[1][0] for p_ in Sym(P, fn).paths() if p_.end[0] == "return" and result_variant(p_.ret)[0] == "Some"]
+            if not pays:
+                raise AnchorLost(fn + ": no Some return")
+            stepped = [pp(t)[:80] for t in pays if any(x[0] == "call" for x in walk_terms(t))]
+            chk.expect(not stepped, it + "::" + m.split("::")[-1] + " yields the current value", "%s yields %s (expected the value stored before the step)" % (fn, stepped), loc=P.loc(fn))
 
 
 def r_size_hint(chk, P, tier):
